@@ -27,6 +27,10 @@ pub struct Route {
     pub by: u8,
     /// sent as a two-packet message instead of a small one
     pub big: bool,
+    /// the callback itself performs a visible operation (user code in handlers does I/O): this
+    /// opens scheduling windows inside the router's event loop
+    #[serde(default)]
+    pub cb_yield: bool,
 }
 
 #[derive(Clone, Debug, Serialize, Deserialize)]
@@ -83,6 +87,7 @@ fn body(p: &P) -> Result<(), String> {
         let mut xbs = Vec::new();
         let mut feed = Vec::new();
         for (i, r, tx, rx) in set {
+            let r2 = r.clone();
             match r.kind {
                 Kind::Callback => {
                     let g = Guard { route: i, drops: drops.clone(), done: done.clone() };
@@ -91,6 +96,9 @@ fn body(p: &P) -> Result<(), String> {
                         rx.to_opaque(),
                         Box::new(move |m| {
                             let _keep = &g;
+                            if r2.cb_yield {
+                                crate::sched::vyield();
+                            }
                             match m.to::<Msg>() {
                                 Ok((v, body)) => {
                                     let ok = body.iter().all(|b| *b == i as u8);
@@ -105,7 +113,7 @@ fn body(p: &P) -> Result<(), String> {
                     xbs.push((i, proxy.route_ipc_receiver_to_new_crossbeam_receiver(rx)));
                 },
             }
-            feed.push((i, r, tx));
+            feed.push((i, r.clone(), tx));
         }
         for (i, r, tx) in feed {
             for s in 0..r.post {
@@ -172,18 +180,27 @@ pub fn scenarios(tier: Tier) -> Vec<Scenario> {
     let mut v = Vec::new();
     let mut add = |routes: Vec<Route>, bound: u32| {
         let p = P { routes };
-        let name = format!("{:?}", p.routes.iter().map(|r| format!("{:?}/pre{}/post{}/by{}{}", r.kind, r.pre, r.post, r.by, if r.big { "/big" } else { "" })).collect::<Vec<_>>());
-        v.push(Scenario::new(name, sched_cfg(), bound, move || body(&p)));
+        let name = format!("{:?}", p.routes.iter().map(|r| format!("{:?}/pre{}/post{}/by{}{}{}", r.kind, r.pre, r.post, r.by, if r.big { "/big" } else { "" }, if r.cb_yield { "/cb-yields" } else { "" })).collect::<Vec<_>>());
+        let mut cfg = sched_cfg();
+        cfg.post_points = true;
+        v.push(Scenario::new(name, cfg, bound, move || body(&p)));
     };
     use Kind::*;
-    let r = |kind, pre, post, by, big| Route { kind, pre, post, by, big };
+    let r = |kind, pre, post, by, big| Route { kind, pre, post, by, big, cb_yield: false };
+    let ry = |kind, pre, post, by| Route { kind, pre, post, by, big: false, cb_yield: true };
     if tier.is_quick() {
         add(vec![r(Callback, 1, 1, 0, false)], 2);
         add(vec![r(Crossbeam, 0, 2, 0, false)], 2);
         add(vec![r(Callback, 0, 1, 0, false), r(Crossbeam, 1, 0, 1, false)], 2);
         add(vec![r(Callback, 1, 0, 1, true), r(Callback, 0, 1, 0, false)], 1);
         add(vec![r(Callback, 0, 0, 0, false), r(Crossbeam, 0, 0, 1, false)], 2);
+        // a handler that does I/O while other registrations arrive
+        add(vec![ry(Callback, 0, 1, 0), r(Callback, 0, 0, 0, false), r(Callback, 1, 0, 1, false)], 2);
+        add(vec![ry(Callback, 1, 0, 0), r(Crossbeam, 0, 1, 1, false)], 2);
     } else {
+        add(vec![ry(Callback, 0, 1, 0), r(Callback, 0, 0, 0, false), r(Callback, 1, 0, 1, false)], 3);
+        add(vec![ry(Callback, 1, 0, 0), r(Crossbeam, 0, 1, 1, false)], 3);
+        add(vec![ry(Callback, 1, 1, 0), ry(Callback, 0, 1, 1), r(Crossbeam, 0, 0, 1, false)], 2);
         for kind in [Callback, Crossbeam] {
             for pre in 0..=2 {
                 for post in 0..=2 {
